@@ -273,11 +273,14 @@ class InodeOpen(Base):
     external file object) and returns (source, data length)."""
     target = 'pycdlib.inode.InodeOpenData.__enter__'
     location = 1
+    managed = False     # True: the inode was given a file NAME (add_file); every entry opens the file afresh and must still seek
 
     def setup(self, c):
         a = c.a
         a.F = c.abytes('F')
         a.fp = c.afile(a.F, c.int('F_pos', 0))
+        if self.managed:
+            return self.setup_managed(c)
         a.orig = c.int('orig_extent_loc', 0)
         a.new = c.int('new_extent_loc', -1)
         a.fpoff = c.int('fp_offset', 0)
@@ -288,10 +291,44 @@ class InodeOpen(Base):
         a.self = c.obj('pycdlib.inode.InodeOpenData', ino=ino, logical_block_size=a.lbs)
         return Call([], self_obj=a.self)
 
+    def setup_managed(self, c):
+        a = c.a
+        a.orig = c.int('orig_extent_loc', 0)
+        a.new = c.int('new_extent_loc', -1)
+        a.fpoff = c.int('fp_offset', 0, 1 << 40)
+        a.n = c.int('data_length', 0)
+        a.lbs = 2048
+        if c.symbolic:
+            a.name = '/host/file.bin'
+            a.opened = []
+
+            def factory():
+                f = c.afile(a.F, 0)
+                a.opened.append(f)
+                return f
+            c.p.ghost['host_files'] = {a.name: factory}
+        else:
+            import os
+            import tempfile
+            fd, a.name = tempfile.mkstemp(prefix='pyvc-inode-')
+            os.write(fd, bytes(a.F))
+            os.close(fd)
+        ino = c.obj('pycdlib.inode.Inode', _initialized=True, manage_fp=True, data_fp=a.name, original_data_location=self.location,
+                    orig_extent_loc=a.orig, new_extent_loc=a.new, fp_offset=a.fpoff, data_length=a.n)
+        a.self = c.obj('pycdlib.inode.InodeOpenData', ino=ino, logical_block_size=a.lbs)
+        return Call([], self_obj=a.self)
+
     def post(self, c, a, out):
         fp, n = out.result
         pos = fp.pos if c.symbolic else fp.tell()
         want = a.orig * a.lbs if self.location == 1 else a.fpoff
+        if self.managed:
+            if not c.symbolic:
+                import os
+                fp.close()
+                os.unlink(a.name)
+            return {'positioned-at-original-data': pos == want, 'returns-source-and-length': n == a.n,
+                    'opened-the-named-file-once': (len(a.opened) == 1 and fp is a.opened[0]) if c.symbolic else True}
         return {'positioned-at-original-data': pos == want, 'returns-source-and-length': And(fp is a.fp, n == a.n)}
 
     def observe(self, c, a, out):
